@@ -174,7 +174,7 @@ theorem cutLoop_total : ∀ (fuel : Nat) (c : Cutter) (prev : Option (Nat × Nat
         exact NoPanic.of_exists (finish_total _
           (unread_patch_wf _ b' _ bits1.unread.index bits1.unread.nBits hfbn hfbi1 (by omega))) e h
     · -- errInternalSomeProgress
-      have hwf := unread_wf (k6 rfl)
+      have hwf := unread_wf (k6 rfl).1
       obtain ⟨b', eb⟩ := patchFinalBit_total c3.bits.bytes bits1.unread.index bits1.unread.nBits hfbi1
         (by omega)
       have hps := patchFinalBit_size _ _ _ _ eb
